@@ -40,47 +40,45 @@ def const_num(P, mod, cls, e):
 
 
 def converter_interval(P, u, limits=None):
-    """(lo, hi, nan_safe, var) accepted by a converter whose range guard raises ValueError; None if no guard."""
+    """(lo, hi, nan_safe, var) accepted by a converter whose range guard raises ValueError; None if no guard.
+    The guard may be one test (`lo > v or v > hi`, `not lo <= v <= hi`) or one raising `if` per bound."""
+    def num(e, which):
+        if limits and ast.unparse(e) == 'limits[%d]' % which:
+            return limits[which]
+        return const_num(P, u.mod, u.cls, e)
+    lo = hi = var = None
+    seen = False
     for n in own_nodes(u.node):
-        if not isinstance(n, ast.If):
-            continue
-        if not any(isinstance(x, ast.Raise) for x in n.body):
+        if not isinstance(n, ast.If) or not any(isinstance(x, ast.Raise) for x in n.body):
             continue
         t = n.test
-        # form A: lo > v or v > hi  /  v < lo or v > hi
-        if isinstance(t, ast.BoolOp) and isinstance(t.op, ast.Or) and len(t.values) == 2 and \
-                all(isinstance(x, ast.Compare) and len(x.ops) == 1 for x in t.values):
-            lo = hi = var = None
-            for c in t.values:
-                l, op, r = c.left, c.ops[0], c.comparators[0]
-                lv, rv = const_num(P, u.mod, u.cls, l), const_num(P, u.mod, u.cls, r)
-                if limits and ast.unparse(l) == 'limits[0]':
-                    lv = limits[0]
-                if limits and ast.unparse(r) == 'limits[1]':
-                    rv = limits[1]
-                if lv is not None and isinstance(op, ast.Gt):          # lo > v
-                    lo, var = lv, ast.unparse(r)
-                elif rv is not None and isinstance(op, ast.Lt):        # v < lo
-                    lo, var = rv, ast.unparse(l)
-                elif rv is not None and isinstance(op, ast.Gt):        # v > hi
-                    hi, var = rv, ast.unparse(l)
-                elif lv is not None and isinstance(op, ast.Lt):        # hi < v
-                    hi, var = lv, ast.unparse(r)
-                else:
-                    return ('?', ast.unparse(t))
-            return (lo, hi, False, var)
         # form B: not lo <= v <= hi
         if isinstance(t, ast.UnaryOp) and isinstance(t.op, ast.Not) and isinstance(t.operand, ast.Compare) and \
                 len(t.operand.ops) == 2 and all(isinstance(o, ast.LtE) for o in t.operand.ops):
             c = t.operand
-            lo, hi = const_num(P, u.mod, u.cls, c.left), const_num(P, u.mod, u.cls, c.comparators[1])
-            if limits and ast.unparse(c.left) == 'limits[0]':
-                lo = limits[0]
-            if limits and ast.unparse(c.comparators[1]) == 'limits[1]':
-                hi = limits[1]
-            return (lo, hi, True, ast.unparse(c.comparators[0]))
-        return ('?', ast.unparse(t))
-    return None
+            return (num(c.left, 0), num(c.comparators[1], 1), True, ast.unparse(c.comparators[0]))
+        # form A: lo > v or v > hi  /  v < lo or v > hi, in one test or in successive raising tests
+        parts = t.values if isinstance(t, ast.BoolOp) and isinstance(t.op, ast.Or) else [t]
+        if not all(isinstance(x, ast.Compare) and len(x.ops) == 1 for x in parts):
+            return ('?', ast.unparse(t))
+        for c in parts:
+            l, op, r = c.left, c.ops[0], c.comparators[0]
+            lv, rv = num(l, 0), num(r, 1)
+            lv0, rv0 = num(l, 1), num(r, 0)
+            if lv is not None and isinstance(op, ast.Gt):          # lo > v
+                lo, var = lv, ast.unparse(r)
+            elif rv0 is not None and isinstance(op, ast.Lt):       # v < lo
+                lo, var = rv0, ast.unparse(l)
+            elif rv is not None and isinstance(op, ast.Gt):        # v > hi
+                hi, var = rv, ast.unparse(l)
+            elif lv0 is not None and isinstance(op, ast.Lt):       # hi < v
+                hi, var = lv0, ast.unparse(r)
+            else:
+                return ('?', ast.unparse(t))
+            seen = True
+    if not seen:
+        return None
+    return (lo, hi, False, var)
 
 
 def run(P, R):
